@@ -73,6 +73,8 @@ class Isolation(Observer):
         self.pending = {}      # O nick -> (category, subject, header, snapshot)
         self.handshake = {}    # (O nick, P ident) -> {'sees': statecode, 'strategies': dict or None}
         self.requests_after = {}  # (O, inc, P ident) -> t_us of the last request pushed to P
+        self.prev_states = {}
+        self.checking_since = {}  # (O, inc, P ident) -> t_us of the entry in the current CHECKING episode
 
     def _probe(self, name):
         self.probes[name] = self.probes.get(name, 0) + 1
@@ -111,7 +113,8 @@ class Isolation(Observer):
             o = sim.instances.get(src)
             if o is not None:
                 st = dst.supvisors.context.instances.get(o.identifier)
-                self.handshake[(src, dst.identifier)] = {'sees': st.state.value if st else None, 'real': True}
+                self.handshake[(src, dst.identifier)] = {'sees': st.state.value if st else None, 'real': True,
+                                                         't_us': sim.now_us}
         if m != 'supervisor.sendRemoteCommEvent':
             return
         try:
@@ -161,8 +164,12 @@ class Isolation(Observer):
                              'interference:%s:%s' % (category, header))
         # permanence
         known = self.isolated.setdefault(key, {})
+        prev_states = self.prev_states.setdefault(key, {})
         for ident, st in inst.supvisors.context.instances.items():
             name = st.state.name
+            if name == 'CHECKING' and prev_states.get(ident) != 'CHECKING':
+                self.checking_since[(inst.nick, inst.incarnation, ident)] = sim.now_us
+            prev_states[ident] = name
             if name == 'ISOLATED':
                 if ident not in known:
                     known[ident] = sim.now_us
@@ -244,6 +251,12 @@ class Isolation(Observer):
                 ans = obs.handshake.get((inst.nick, status.identifier))
             if not ans:
                 return res
+            # the answers that admit a peer must have been given during the CURRENT hand-shake: a result of an earlier
+            # CHECKING episode (slow answers, the peer went STOPPED and CHECKING again meanwhile) is stale
+            t_chk = obs.checking_since.get((inst.nick, inst.incarnation, status.identifier))
+            if after in ADMITTED and t_chk is not None and ans.get('t_us') is not None and ans['t_us'] < t_chk:
+                obs.violate('admitted', {'inst': inst.nick, 'peer': pnick, 'answered_at': ans['t_us'] / 1e6,
+                                         'checking_since': t_chk / 1e6}, 'admitted-on-a-stale-authorization')
             must_isolate = ans.get('sees') == 5 or ans.get('mismatch')
             obs._probe('handshake_%s%s' % (after, '_must_isolate' if must_isolate else ''))
             if must_isolate and after in ADMITTED:
